@@ -152,7 +152,7 @@ Section Frame.
       + destruct (xArgs - nargs + 1 <? 0); [reflexivity|].
         destruct (popn (Z.to_nat (xArgs - nargs + 1)) ops []) as [[vargs rest]|] eqn:EP; [|exact I].
         rewrite (popn_frame _ _ _ _ _ lo EP).
-        destruct (new_slice s (Type_value vtype) _) as [s1 sv].
+        destruct (variadic_arg s vtype _ _) as [s1 sv].
         destruct (negb (xArgs - (xArgs - nargs + 1) + 1 =? nargs)); [reflexivity|].
         leafc lo.
       + destruct (negb (xArgs =? nargs)); [reflexivity|]. leafc lo.
@@ -174,7 +174,7 @@ Section Frame.
     - destruct (variadic && pack).
       + destruct (xArgs - nargs + 1 <? 0); [discriminate|].
         destruct (popn (Z.to_nat (xArgs - nargs + 1)) ops []) as [[vargs rest]|]; [|discriminate].
-        destruct (new_slice s (Type_value vtype) _) as [s1 sv].
+        destruct (variadic_arg s vtype _ _) as [s1 sv].
         destruct (negb (xArgs - (xArgs - nargs + 1) + 1 =? nargs)); [discriminate|].
         destruct (popn (Z.to_nat nargs) (sv :: rest) []) as [[args rest']|]; [|discriminate].
         destruct (execf fuel body 0 _ [] (push_bt s1 pos)); try discriminate.
@@ -263,15 +263,15 @@ Section Frame.
         assert (LF : zlen fixed = nargs - 1) by (apply zlen_firstn; lia).
         assert (EX : xArgs = zlen fixed + zlen extra) by (rewrite <- HA, EA, zlen_app; reflexivity).
         rewrite EA, rev_app_distr, <- app_assoc, EX.
-        destruct (call_variadic_pack grow ext_get ext_set ext_len ext_getattr ext_setattr
-                    fuel fa xRets pos fixed extra lo s nargs nrets vtype nslots types body H LF) as (E1 & _ & _).
-        destruct (call_variadic_pack grow ext_get ext_set ext_len ext_getattr ext_setattr
-                    fuel fa xRets pos fixed extra [] s nargs nrets vtype nslots types body H LF) as (E2 & _ & _).
+        pose proof (call_variadic_gen grow ext_get ext_set ext_len ext_getattr ext_setattr
+                    fuel fa xRets pos fixed extra lo s nargs nrets vtype nslots types body H LF) as E1.
+        pose proof (call_variadic_gen grow ext_get ext_set ext_len ext_getattr ext_setattr
+                    fuel fa xRets pos fixed extra [] s nargs nrets vtype nslots types body H LF) as E2.
         cbv zeta in E1, E2. rewrite E1. rewrite app_nil_r in E2. rewrite E2.
-        set (e := Type_value vtype) in *. set (cells := map (fun a => Value_assign a e) extra) in *.
-        set (s1 := fst (new_slice s e cells)) in *. set (sv := snd (new_slice s e cells)) in *.
+        set (s1 := fst (variadic_arg s vtype (zlen extra) extra)) in *.
+        set (sv := snd (variadic_arg s vtype (zlen extra) extra)) in *.
         assert (Hh : hget s1 fa = Some (HFunc nargs nrets true vtype nslots types body))
-          by (apply hget_new_slice; exact H).
+          by (apply hget_variadic_arg; exact H).
         assert (LA : zlen (fixed ++ [sv]) = nargs) by (rewrite zlen_app; unfold zlen at 2; cbn [List.length]; lia).
         rewrite (call_exact _ _ _ _ _ _ _ _ _ _ _ _ _ _ _ _ _ _ _ _ _ Hh eq_refl LA).
         rewrite (call_exact _ _ _ _ _ _ _ _ _ _ _ _ _ _ _ _ _ _ _ _ _ Hh eq_refl LA).
